@@ -28,6 +28,50 @@ Round 3 (histories, failure paths, process order, cooperating sites, rare classe
                 projections incl. north angles, default / keyword / lower-case argument forms).
 In the check process itself histories run on private module copies only, and they come first in the oracle
 stream, so that the first failing input reported is self-contained.
+
+Round 4 (override gaps / siblings, aliasing and one-shot iterables, conventions, numeric edges, input shapes,
+rarely taken branches):
+  * aliasing (f): the caller edits EVERY container it is handed - the lists of the weight functions, the row layout
+    also for division_count 1 (class constant), and whatever a lazy property returns (`read; scribble; read; renew;
+    read`) - and asks again on the same and on a second object; `containers`: every sequence argument of the anchored
+    code (polylines of Sunpath._project_polyline_to_2d, angles of Compass.label_points_from_angles /
+    ticks_from_angles, the row layout of _patch_count_in_radial_offset) as list / tuple / generator / iter / map /
+    filter / zip-derived generator / dict view (non-sorted insertion order) / deque, asked twice.
+  * input shapes (i): subdivide_in_place as any truthy / falsy object (1, 'yes', [0], 2.5, 'False' / 0, None, '', [],
+    0.0) positionally and by keyword; division_count 1 given as True; offset angles as int / float / Fraction /
+    Decimal / bool; Compass radius / spacing_factor / north_angle and the constructor radius as text (plain, padded,
+    exponent form, underscore, non-ASCII digits, sign), bytes, Fraction, Decimal, bool, and text that float()
+    refuses or that parses to a refused number ('nan', '-3'); projection arguments as Vector3D / duck-typed points,
+    Fraction radius, Point3D / Vector2D origins, upper- and mixed-case projection names.
+  * numeric edges (h): EVERY altitude count 2..144 and every azimuth count 1..144 of the radial domes (float row
+    angles differ from count to count), every half-row offset (k + 1/2) rows of the horizontal band for every row
+    (quotients exactly on a half: 30 degrees on the Tregenza dome is one) and a hair to either side, sphere radii
+    and compass radii 1e-12 .. 1e+16 with origins of the same magnitude (relative tolerances throughout).
+  * conventions (g): the band must end within half a row of the offset angle GIVEN IN DEGREES (measured on the mesh:
+    `band_extent`), Sunpath objects with a north angle in `polyline2d`, monthly and analemma paths in half of the cases.
+  * siblings (e): ViewSphere and Compass have no subclasses; the sibling functions the statement makes agree are
+    compared: dome / sphere / band weights against the same mesh solid angles, tregenza_* / reinhart_* getters against
+    the plain functions, Sun.position_2d / Sunpath.day_ / monthly_day_ / hourly_analemma_polyline2d against the
+    projected 3D paths, orthographic_ / stereographic_altitude_circles and _points.
+  * branches (j) of the anchored functions, each reached by a counted stratum (`branch:<function>:<arm>` in evidence):
+      _patch_row_count_array      count == 1 (class tuple) | count > 1 (list comprehension) | count < 1 (empty list)
+      dome_patches                vertical angle in_place | default; (`if subdivide_in_place: correction_angle * n`
+                                  is a statement without effect: both arms behave alike - nothing to reach)
+      _dome_patch_areas           vert_angle in_place | default
+      _patch_count_in_radial_offset  vert_angle in_place | default; rows[:k] with k < 0 (slice from the end) | k = 0
+                                  (empty band: the callers fail) | 0 < k < rows | k >= rows (slice past the end);
+                                  quotient exactly on a half
+      dome_radial_patches         row loop not entered (altitude_count <= 1: IndexError, known finding) | rows;
+                                  azimuth_count < 3 (flat faces) | >= 3
+      _dome_radial_patch_areas    no rows (altitude_count < 1) | rows
+      the 11 lazy getters         slot empty (build) | slot filled by itself | slot filled by the sibling getter
+      Compass numeric setters     accepted | float() refuses | assert refuses;  center: Point2D | refused
+      *_altitude_points           _north_angle == 0 (no rotation) | rotated
+      point3d_to_stereographic    radius / origin defaults | given; pole (ZeroDivisionError)
+      Sun.position_2d, Sunpath._project_polyline_to_2d   orthographic | stereographic | unsupported name (raise)
+      Sunpath.day_polyline2d      arc | no arc (sun never up: None);   Sun._calculate_sun_vector  north 0 | rotated
+    Not reachable through the public API: none of the above; `Compass.north_vector` setter and `__eq__/__hash__` are
+    outside the statement.
 """
 import json
 import math
@@ -60,6 +104,11 @@ RULE = ('correspondence: division counts 1..6 (thorough 1..8) x subdivide_in_pla
         'brand-new module copy; a slice of the stream is re-run in fresh interpreters in 2-4 different orders '
         '(refused / rare cases first); consumers of the projections (day_polyline2d, altitude circles, one Sun / '
         'one point asked several questions, default and keyword call forms). '
+        'round 4: every returned container edited by the caller and asked again; every sequence argument as list / '
+        'tuple / generator / iter / map / filter / dict view / deque; the flag as any truthy / falsy object, counts as '
+        'True, angles as Fraction / Decimal, compass numbers as text / bytes / Fraction / Decimal; every altitude and '
+        'azimuth count 1..144 of the radial domes; every half-row offset of the band (and the band must end within half '
+        'a row of the offset); radii 1e-12..1e+16; counted branch strata of the anchored functions. '
         'A case is non-trivial when the implementation returns a value; distinct = '
         'distinct (op, input)')
 TRUSTED_BASE = [
@@ -98,6 +147,59 @@ def _unbits(s):
 
 def _b(x):
     return '1' if x else '0'
+
+
+CONTAINERS = ['list', 'tuple', 'generator', 'iter', 'map', 'dict_keys', 'deque', 'filter', 'zip_first']
+
+
+def _as_container(items, kind):
+    """The same items in another container / as a one-shot iterable (kinds f and i)."""
+    items = list(items)
+    if kind == 'list':
+        return list(items)
+    if kind == 'tuple':
+        return tuple(items)
+    if kind == 'generator':
+        return (x for x in items)
+    if kind == 'iter':
+        return iter(items)
+    if kind == 'map':
+        return map(lambda x: x, items)
+    if kind == 'filter':
+        return filter(lambda x: True, items)
+    if kind == 'zip_first':
+        return (a for a, _ in zip(items, items))
+    if kind == 'deque':
+        import collections
+        return collections.deque(items)
+    if kind == 'dict_keys':           # insertion order, built in non-sorted order; items must be hashable and distinct
+        return dict((x, None) for x in items).keys() if len(set(map(id, items))) == len(items) and \
+            all(getattr(x, '__hash__', None) for x in items) and len(set(items)) == len(items) else tuple(items)
+    raise ValueError(kind)
+
+
+def _number_as(x, kind):
+    """The number x handed over as another type (kind i: input shapes); text and bytes for float()-ing setters."""
+    from decimal import Decimal
+    if kind == 'int':
+        return int(x)
+    if kind == 'float':
+        return float(x)
+    if kind == 'fraction':
+        return Fraction(x)
+    if kind == 'decimal':
+        return Decimal(repr(x)) if isinstance(x, float) else Decimal(x)
+    if kind == 'bool':
+        return bool(x)
+    if kind == 'bytes':
+        return str(x).encode('ascii')
+    if kind == 'text':
+        return repr(x)
+    if kind == 'text_padded':
+        return '  %r\n' % (x,)
+    if kind == 'text_exp':
+        return '%e' % x if float('%e' % x) == x else repr(float(x))
+    raise ValueError(kind)
 
 
 def _vs():
@@ -241,6 +343,16 @@ SCRIBBLES = ['double', 'clear', 'set0', 'append']
 OBJECT_KINDS = ['copy', 'copy', 'copy_singleton']
 
 
+TRUTHY = [1, 'yes', [0], 2.5, 'False']
+FALSY = [0, None, '', [], 0.0]
+
+
+def _flag_shape(value, i):
+    """The subdivide_in_place flag as another object of the same truth value (kind i: input shapes)."""
+    pool = TRUTHY if value else FALSY
+    return pool[i % len(pool)]
+
+
 def _spoil(n, kind):
     """An argument equal to / made from the count `n` but of a type the methods cannot use."""
     return {'float': float(n), 'fraction': Fraction(n), 'str': str(n), 'none': None, 'list': [n]}[kind]
@@ -309,9 +421,13 @@ def _do_call(o, cls, op):
                 pos = op['bad_pos']
             a[pos] = _spoil(a[pos], op['bad'])
     kw = {}
+    shaped = op.get('fshape') is not None and fn in DOME_FNS and fn != 'rows'
+    if shaped:                        # the flag handed over as another truthy / falsy object than True / False
+        a[-1] = _flag_shape(a[-1], op['fshape'])
     if op.get('kw') and fn in DOME_FNS and fn != 'rows':
-        kw['subdivide_in_place'] = bool(a.pop())
-    elif fn in ('dome', 'sphere', 'weights', 'sweights', 'offset', 'offsetw') and not a[-1] and not op.get('flag'):
+        kw['subdivide_in_place'] = a.pop() if shaped else bool(a.pop())
+    elif fn in ('dome', 'sphere', 'weights', 'sweights', 'offset', 'offsetw') and not a[-1] and not op.get('flag') \
+            and not shaped:
         a.pop()                       # the flag is passed only when set (default path), unless asked for
     if fn == 'rows':
         return cls._patch_row_count_array(a[0])
@@ -532,11 +648,26 @@ def _histories(ctx, rng, full):
     # (3) the caller edits a list it was handed
     for fn in LIST_FNS:
         for how in SCRIBBLES:
-            n = rng.randrange(2, 5)
+            n = rng.choice([1, 1, 2, 3, 4])       # 1: the Tregenza layout is a class constant (a tuple today)
             first = _op_call('radialw', n + 2, n + 1) if fn == 'radialw' else call(fn, n, False, off=45)
             others = [call(f, n, False, off=45) for f in rng.sample(['rows', 'weights', 'sweights', 'offsetw'], 2)]
             add([first, {'k': 'scribble', 'how': how}, dict(first)] + others +
                 ([call('dome', n, False)] if n <= 3 else []), stratum='scribble')
+    for i, p in enumerate(LAZY_PROPS):     # ... or a container a property handed out (tuples today: no edit possible)
+        how = SCRIBBLES[(i + rng.randrange(4)) % 4]
+        add([{'k': 'read', 'p': p}, {'k': 'scribble', 'how': how}, {'k': 'read', 'p': p}, {'k': 'renew'},
+             {'k': 'read', 'p': p}], stratum='scribble:read')
+    # (3b) input shapes: the flag as another truthy / falsy object, the count 1 given as True
+    for fn in ('dome', 'sphere', 'weights', 'sweights', 'offset', 'offsetw'):
+        for ip in (True, False):
+            n = rng.choice(([1, 2, 2, 3] if full else [1, 2, 2]) if fn in ('dome', 'sphere', 'offset') else [1, 2, 3, 4, 5])
+            add([call(fn, n, ip, off=45, fshape=1 + rng.randrange(5), kw=rng.random() < 0.3), call(fn, n, ip, off=45),
+                 call(fn, n, not ip, off=45, fshape=1 + rng.randrange(5))], stratum='shape:flag')
+    for fn in DOME_FNS:
+        ip = rng.random() < 0.5
+        add([call(fn, True, ip, off=45), call(fn, 1, ip, off=45)] +
+            ([call(fn, 2, ip, off=45)] if full or fn not in ('dome', 'sphere', 'offset') else []),
+            stratum='shape:count_true')
     # (4) the same question several times; reads and calls mixed
     for fn in ('sweights', 'weights', 'sphere', 'dome', 'offsetw', 'offset', 'rows'):
         n = rng.choice([1, 2, 3])
@@ -583,12 +714,28 @@ def _histories(ctx, rng, full):
 COMPASS_ALTS = (10, 20, 30, 40, 50, 60, 70, 80)
 
 
+def _cval(op):
+    """The object handed to a numeric setter: the number itself, or the same number as text / bytes / Fraction /
+    Decimal / bool (`as`), or a text given literally."""
+    return _number_as(op['v'], op['as']) if op.get('as') else op['v']
+
+
+def _cnum(op):
+    """The number a `float(value)`-ing setter is given (stdlib float of what is handed over); None when float()
+    itself refuses it."""
+    try:
+        return float(_cval(op))
+    except (TypeError, ValueError):
+        return None
+
+
 def _compass_tok(op):
     k = op['k']
     if k == 'setr':
-        return 'setr_text' if isinstance(op['v'], str) else 'setr:' + _fbits(op['v'])
+        x = _cnum(op)
+        return 'setr_text' if x is None else 'setr:' + _fbits(x)
     if k == 'sets':
-        return 'sets:' + _fbits(op['v'])
+        return 'sets:' + _fbits(_cnum(op))
     if k == 'setc':
         return 'setc_other' if op.get('other') else 'setc:%s:%s' % (_fbits(op['x']), _fbits(op['y']))
     return k           # reads / reado / dup
@@ -598,9 +745,9 @@ def _compass_apply(c, op):
     from ladybug_geometry.geometry2d.pointvector import Point2D
     k = op['k']
     if k == 'setr':
-        c.radius = op['v']
+        c.radius = _cval(op)
     elif k == 'sets':
-        c.spacing_factor = op['v']
+        c.spacing_factor = _cval(op)
     elif k == 'setc':
         c.center = (op['x'], op['y']) if op.get('other') else Point2D(op['x'], op['y'])
 
@@ -648,11 +795,11 @@ def _check_compass(inp, bad):
                 if k == 'dup':
                     c = c.duplicate()
                 elif k == 'setn':
-                    c.north_angle = op['v']
+                    c.north_angle = _cval(op)
                 else:
                     _compass_apply(c, op)
                 if k == 'setr':
-                    R = float(op['v'])
+                    R = _cnum(op)
                 elif k == 'setc':
                     cx, cy = float(op['x']), float(op['y'])
             except Exception:
@@ -693,8 +840,10 @@ def _check_compass(inp, bad):
 def _compass_histories(ctx, rng):
     out = []
     for i in range(ctx.n(40, 400)):
-        r0 = rng.choice([100, 1, 1.0, 0.5, rng.uniform(0.01, 1e4)])
+        r0 = rng.choice([100, 1, 1.0, 0.5, rng.uniform(0.01, 1e4), '100', ' 2.5e1 ', 1e-9, 1e12])
         cx0, cy0 = rng.choice([(0, 0), (0.0, 0.0), (rng.uniform(-1e3, 1e3), rng.uniform(-1e3, 1e3)), (5.0, 5.0)])
+        if isinstance(r0, float) and (r0 < 1e-6 or r0 > 1e9):
+            cx0, cy0 = cx0 * r0, cy0 * r0          # magnitudes: the whole scene tiny / huge
         ops = []
         for _ in range(rng.randrange(1, 7)):
             t = rng.random()
@@ -711,6 +860,20 @@ def _compass_histories(ctx, rng):
                 ops.append({'k': 'setr', 'v': 'wide'})                               # refused: not a number
             else:
                 ops.append({'k': 'sets', 'v': rng.choice([0.3, 2, 0, -1])})     # 0 / -1: refused
+            if rng.random() < 0.3:        # input shapes: the number as text / bytes / Fraction / Decimal / bool
+                last = ops[-1]
+                if last['k'] in ('setr', 'sets') and not isinstance(last['v'], str):
+                    v = last['v']
+                    kinds = ['text', 'text_padded', 'text_exp', 'fraction', 'decimal'] + \
+                        (['bytes'] if v == int(v) else []) + (['bool'] if v == 1 else [])
+                    last['as'] = rng.choice(kinds)
+                    if last['as'] == 'bytes':
+                        last['v'] = int(v)
+                    ctx.count('compass_shape:' + last['as'])
+            elif rng.random() < 0.1:      # text spelt with an underscore / non-ASCII digits / exponent / refused text
+                ops.append({'k': 'setr', 'v': rng.choice(['1_0', '\u0663', '1E2', '2.5e-1', '+7', 'nan', '-3', '1,5',
+                                                            '', '0x10'][:9 if i % 2 else 10])})
+                ctx.count('compass_shape:literal_text')
             if rng.random() < 0.25:
                 ops.append({'k': 'dup'})
             ops.append({'k': rng.choice(['reads', 'reado'])})
@@ -927,6 +1090,8 @@ def correspondence(ctx):
     rad = [(a, b) for a in special for b in special if a * b <= (5000 if ctx.quick else 30000)]
     rad += [(rng.randrange(1, 145), rng.randrange(1, 145)) for _ in range(ctx.n(6, 60))]
     rad = [c for c in rad if c[0] * c[1] <= (5000 if ctx.quick else 30000)]
+    rad += [(rng.choice([1, 2, 3, 5]), alt) for alt in range(2, 145)]       # every altitude count (numeric edges)
+    rad += [(az, rng.choice([2, 3, 4])) for az in range(1, 145, 1 if not ctx.quick else 3)]
     rad += [(0, 3), (3, 0), (0, 0), (1, 1), (5, 1), (144, 1)]
     for c in rad:
         ctx.count('radial:alt=1' if c[1] == 1 else 'radial:zero' if 0 in c else 'radial:regular')
@@ -1084,7 +1249,8 @@ def _show_pt2(p):
 def _proj_points(rng, count):
     """Points on upper hemispheres of random radius/origin, built with stdlib trigonometry."""
     for i in range(count):
-        r = rng.choice([1.0, 100.0, 0.001, 1e6, rng.uniform(0.01, 1e4)])
+        r = rng.choice([1.0, 100.0, 0.001, 1e6, rng.uniform(0.01, 1e4), rng.uniform(0.01, 1e4),
+                        rng.choice([1e-12, 1e-9, 1e-6, 1e9, 1e12, 1e16])])     # magnitudes 1e-12 .. 1e+16
         if rng.random() < 0.4:
             o = [0.0, 0.0, 0.0]
         else:
@@ -1183,9 +1349,14 @@ def check_case(op, inp):
 
     if op in ('dome', 'sphere'):
         n, ip = inp['n'], bool(inp['in_place'])
+        # `flag`: the object handed over as subdivide_in_place (any truthy / falsy object; default: the bool)
+        fl = inp['flag'] if 'flag' in inp else ip
+        wargs = (n, fl) if 'flag' in inp else _flag_args(n, ip)
         base = {'n': n, 'in_place': ip}
+        if 'flag' in inp:
+            base['flag_type'] = type(fl).__name__
         want = 144 * n * n + 1
-        mesh, vecs = vs.dome_patches(n, ip)
+        mesh, vecs = vs.dome_patches(n, fl)
         if len(vecs) != want:
             return bad('patch_count', want, len(vecs), **base)
         if len(mesh.faces) != 144 * n * n + 6 * n:
@@ -1214,7 +1385,7 @@ def check_case(op, inp):
             if op == 'dome':
                 return None          # no in-place weights can be requested from this tree
         if op == 'dome':
-            ws = vs.dome_patch_weights(*_flag_args(n, ip))
+            ws = vs.dome_patch_weights(*wargs)
             if len(ws) != len(vecs):
                 return bad('weights_aligned', len(vecs), len(ws), **base)
             if not _mean_one(ws):
@@ -1224,7 +1395,7 @@ def check_case(op, inp):
                 return bad('weights_vs_mesh', 'weight / true solid angle of the generated patch is constant',
                            'ratio ranges over [%r, %r] (x %.4f)' % (lo, hi, hi / lo), **base)
             return None
-        smesh, svecs = vs.sphere_patches(n, ip)
+        smesh, svecs = vs.sphere_patches(n, fl)
         if len(svecs) != 2 * want or len(smesh.faces) != 2 * len(mesh.faces):
             return bad('sphere_count', (2 * want, 2 * len(mesh.faces)), (len(svecs), len(smesh.faces)), **base)
         for i in range(want):
@@ -1238,7 +1409,7 @@ def check_case(op, inp):
                 return bad('sphere_mirror', 'mirrored vertex', 'vertex %d differs' % i, **base)
         if ip and not _weights_take_flag():
             return None
-        ws = vs.sphere_patch_weights(*_flag_args(n, ip))
+        ws = vs.sphere_patch_weights(*wargs)
         if len(ws) != len(svecs):
             return bad('weights_aligned', len(svecs), len(ws), **base)
         if not _mean_one(ws):
@@ -1284,23 +1455,49 @@ def check_case(op, inp):
 
     if op == 'offset':
         off, n, ip = inp['offset_angle'], inp['n'], bool(inp['in_place'])
+        fl = inp['flag'] if 'flag' in inp else ip
         base = {'n': n, 'in_place': ip}
+        if 'flag' in inp:
+            base['flag_type'] = type(fl).__name__
+        if inp.get('angle_as'):                   # the same number handed over as another numeric type
+            off_arg = _number_as(off, inp['angle_as'])
+            base['angle_type'] = inp['angle_as']
+        else:
+            off_arg = off
+        rows_n = 7 * n
+        den = (2 * rows_n + n) if ip else (2 * rows_n + 1)       # rows are 180 / den degrees high
         try:
-            mesh, vecs = vs.horizontal_radial_patches(off, n, ip)
+            mesh, vecs = vs.horizontal_radial_patches(off_arg, n, fl)
         except Exception:
-            if 90.0 * 0.5 / (7 * n + 1) < off <= 90:     # the band holds at least one row: it must exist
+            if 90.0 / den + 1e-9 < off <= 90:     # more than half a row: the band holds a row and must exist
                 raise
             return None        # an empty band (offset 0 or below half a row) has no patches to speak of
         if len(mesh.faces) != len(vecs):
             return bad('offset_faces', len(vecs), len(mesh.faces), **base)
+        if hasattr(ViewSphere, '_patch_count_in_radial_offset') and hasattr(ViewSphere, '_patch_row_count_array'):
+            # the row layout handed over as a tuple or as a list: the same count, that of the band
+            ra = ViewSphere._patch_row_count_array(n)
+            counts = [ViewSphere._patch_count_in_radial_offset(off_arg, n, shape(ra), fl) for shape in (tuple, list)]
+            if counts[0] != counts[1] or 2 * counts[0] != len(vecs):
+                return bad('container', 'band count %d for rows given as tuple and as list' % (len(vecs) // 2),
+                           counts, fn='_patch_count_in_radial_offset', **base)
         half = len(vecs) // 2
         for i in range(half):
             m = vecs[half + i]
             if (m.x, m.y, m.z) != (vecs[i].x, vecs[i].y, -vecs[i].z):
                 return bad('sphere_mirror', 'lower band mirrors the upper band', 'vector %d' % i, **base)
+        # the band reaches up to the offset angle, to within half a row (rows are whole): measured on the mesh
+        if 0 <= off <= 90 and len(vecs) >= 2:
+            half_n = len(vecs) // 2
+            top = max(_face_cell(mesh.vertices, mesh.faces[i])[3] for i in range(half_n))
+            top_deg = math.degrees(math.asin(max(-1.0, min(1.0, top))))
+            reach = min(off, rows_n * 180.0 / den)           # the quad rows end below the zenith patch
+            if abs(top_deg - reach) > 0.5 * 180.0 / den + 1e-6:
+                return bad('band_extent', 'band up to %r degrees (rows of %r degrees)' % (off, 180.0 / den),
+                           'band ends at %r degrees' % top_deg, **base)
         if ip and not _weights_take_flag():
             return None
-        args = (off, n, True) if ip else (off, n)
+        args = (off_arg, n, fl) if (ip or 'flag' in inp) else (off_arg, n)
         try:
             ws = vs.horizontal_radial_patch_weights(*args)
         except ZeroDivisionError:
@@ -1476,6 +1673,53 @@ def check_case(op, inp):
                 return bad('sun_position', 'query %d %s: %r' % (k, name, want), got, **base)
         return None
 
+    if op == 'containers':
+        # kind (f) / (i): a sequence argument handed over as list / tuple / generator / iter / map / dict view /
+        # deque gives the same answer (one-shot iterables are not used up by an earlier pass), asked twice
+        from ladybug.sunpath import Sunpath
+        from ladybug_geometry.geometry3d.polyline import Polyline3D
+        r, ox, oy, name, kind = inp['r'], inp['ox'], inp['oy'], inp['projection'], inp['container']
+        base = {'container': kind, 'projection': name.lower()}
+        scale = r + abs(ox) + abs(oy)
+        plines, wants = [], []
+        for line in inp['lines']:
+            pts, w = [], []
+            for alt, az in line:
+                d = (math.cos(alt) * math.sin(az), math.cos(alt) * math.cos(az), math.sin(alt))
+                pts.append(Point3D(ox + r * d[0], oy + r * d[1], r * d[2]))
+                k = 1.0 if name.lower() == 'orthographic' else 1.0 / (1.0 + d[2])
+                w.append((ox + r * k * d[0], oy + r * k * d[1]))
+            plines.append(Polyline3D(pts))
+            wants.append(w)
+        for ask in (0, 1):
+            got = Sunpath._project_polyline_to_2d(_as_container(plines, kind), name, r, Point3D(ox, oy, 0))
+            got = list(got)
+            if len(got) != len(wants):
+                return bad('container', '%d projected polylines' % len(wants), '%d (ask %d)' % (len(got), ask),
+                           fn='_project_polyline_to_2d', **base)
+            for w, pl in zip(wants, got):
+                vs2 = pl.vertices
+                if len(vs2) != len(w) or any(abs(a.x - b[0]) > 1e-9 * scale or abs(a.y - b[1]) > 1e-9 * scale
+                                             for a, b in zip(vs2, w)):
+                    return bad('container', 'projected vertices %r' % (w[:2],),
+                               [(a.x, a.y) for a in vs2][:2], fn='_project_polyline_to_2d', **base)
+        # Compass label points: the angles in any container (single pass)
+        angles = inp['angles']
+        # (the constructor numbers also as text: float()-ed by the setters)
+        c = Compass(inp.get('radius_as', r), Point2D(ox, oy), inp.get('north', 0), inp.get('spacing', 0.15))
+        ref = [(q.x, q.y) for q in c.label_points_from_angles(list(angles))]
+        got = [(q.x, q.y) for q in c.label_points_from_angles(_as_container(angles, kind))]
+        if got != ref:
+            return bad('container', '%d label points as for a list' % len(ref), '%d points / other points' % len(got),
+                       fn='label_points_from_angles', **base)
+        if kind in ('list', 'tuple', 'deque', 'dict_keys'):      # re-iterable containers only (two passes)
+            t1 = c.ticks_from_angles(_as_container(angles, kind))
+            t2 = c.ticks_from_angles(list(angles))
+            if len(t1) != len(angles) or [(t.p1.x, t.p1.y, t.p2.x, t.p2.y) for t in t1] != \
+                    [(t.p1.x, t.p1.y, t.p2.x, t.p2.y) for t in t2]:
+                return bad('container', '%d ticks as for a list' % len(angles), len(t1), fn='ticks_from_angles', **base)
+        return None
+
     if op == 'polyline2d':
         # consumers of both projections: Sunpath.day_polyline2d (and, for some cases, monthly_day_polyline2d and
         # hourly_analemma_polyline2d) = the projected vertices of the corresponding 3D paths, which lie on the
@@ -1483,7 +1727,7 @@ def check_case(op, inp):
         # and then for the first again
         from ladybug.sunpath import Sunpath
         div = inp.get('divisions', 10)
-        sp = Sunpath(inp['lat'], inp['lon'], inp['tz'])
+        sp = Sunpath(inp['lat'], inp['lon'], inp['tz'], inp.get('north', 0))
         first = (inp['r'], inp['ox'], inp['oy'])
 
         def compare(v3, pl2, name, r, ox, oy, base):
@@ -1510,6 +1754,12 @@ def check_case(op, inp):
         asks = (first, (2 * first[0], first[1] + first[0], first[2] - 3 * first[0]), first)
         for ask, (r, ox, oy) in enumerate(asks):
             arc = sp.day_arc3d(inp['month'], inp['day'], Point3D(ox, oy, 0), r)
+            _POLY_SEEN['arc'] = 'no_arc(sun never up: None)' if arc is None else 'arc'
+            if ask == 1:                 # a refused question in between (unsupported projection): the else branch
+                try:
+                    sp.day_polyline2d(inp['month'], inp['day'], 'Mercator', Point2D(ox, oy), r)
+                except Exception:
+                    pass
             for name in ('Orthographic', 'Stereographic', 'stereographic'):
                 base = {'projection': name.lower(), 'query': 'first' if ask == 0 else 'later', 'path': 'day'}
                 pl2 = sp.day_polyline2d(inp['month'], inp['day'], name, Point2D(ox, oy), r, divisions=div)
@@ -1559,6 +1809,16 @@ def check_case(op, inp):
                 ps = Compass.point3d_to_stereographic(Point3D(*p), origin=Point3D(*o))
             elif mode == 'instance':      # through a Compass object of another radius / center
                 ps = Compass(7, Point2D(3, 4)).point3d_to_stereographic(Point3D(*p), r, Point3D(*o))
+            elif mode == 'vectors':       # input shapes: anything with x / y / z; the radius as a Fraction
+                from ladybug_geometry.geometry3d.pointvector import Vector3D
+                po = Compass.point3d_to_orthographic(Vector3D(*p))
+                ps = Compass.point3d_to_stereographic(Vector3D(*p), Fraction(r), Vector3D(*o))
+            elif mode == 'duck':
+                class _P(object):
+                    def __init__(self, x, y, z):
+                        self.x, self.y, self.z = x, y, z
+                po = Compass.point3d_to_orthographic(_P(*p))
+                ps = Compass.point3d_to_stereographic(_P(*p), radius=r, origin=_P(*o))
             else:
                 ps = Compass.point3d_to_stereographic(Point3D(*p), r, Point3D(*o))
         elif mode != 'full':
@@ -1568,6 +1828,10 @@ def check_case(op, inp):
             p = [q.x, q.y, q.z]
             if mode == 'defaults':        # origin (0, 0), radius 100 left to the defaults
                 po, ps = s.position_2d(), s.position_2d('Stereographic')
+            elif mode == 'shapes':        # upper-case names, the origin as a Point3D / Vector2D
+                from ladybug_geometry.geometry2d.pointvector import Vector2D
+                po = s.position_2d('ORTHOGRAPHIC', Point3D(o[0], o[1], 5.0), r)
+                ps = s.position_2d('sTEREOGRAPHIC', Vector2D(o[0], o[1]), r)
             else:                          # keywords, lower-case projection names
                 po = s.position_2d(radius=r, origin=Point2D(o[0], o[1]))
                 ps = s.position_2d('stereographic', radius=r, origin=Point2D(o[0], o[1]))
@@ -1619,6 +1883,7 @@ def check_case(op, inp):
 
 
 replay = check_case
+_POLY_SEEN = {}
 
 
 def _oracle_cases(ctx):
@@ -1653,7 +1918,7 @@ def _oracle_cases(ctx):
             for o in c['ops']:
                 ops.append(o)
                 if rng.random() < 0.4:
-                    ops.append({'k': 'setn', 'v': rng.choice([0, 30, -90, 360, 400, -720.5, 'north'])})
+                    ops.append({'k': 'setn', 'v': rng.choice([0, 30, -90, 360, 400, -720.5, 'north', '30', ' -9e1', '36_0', True])})
             if not any(o['k'] == 'setr' and not isinstance(o['v'], str) and not o['v'] > 0 for o in ops):
                 yield 'compass', dict(c, ops=ops)
     for c in _polyline_cases(ctx, rng, 60 if big else 12):
@@ -1661,6 +1926,8 @@ def _oracle_cases(ctx):
     for c in _proj_mode_cases(rng, 3000 if big else 300):
         yield c
     for c in _seq_cases(rng, 2000 if big else 200):
+        yield c
+    for c in _container_cases(rng, 360 if big else 45):
         yield c
     top = 8 if big else 6
     for n in range(1, top + 1):
@@ -1672,6 +1939,12 @@ def _oracle_cases(ctx):
     cap = 30000 if big else 6000
     pairs = [(a, b) for a in special for b in special if b > 1 and a * b <= cap]
     pairs += [(rng.randrange(1, 145), rng.randrange(2, 145)) for _ in range(60 if big else 8)]
+    # numeric edges: EVERY altitude count (accumulated / divided float row angles differ from count to count)
+    # with a few azimuth cells, and every azimuth count with a few rows
+    for alt in range(2, 145):
+        pairs.append((rng.choice([1, 2, 3, 4, 5, 7]), alt))
+    for az in range(1, 145):
+        pairs.append((az, rng.choice([2, 3, 4, 5])))
     for a, b in pairs:
         if a * b <= cap:
             yield 'radial', {'azimuth_count': a, 'altitude_count': b}
@@ -1681,12 +1954,39 @@ def _oracle_cases(ctx):
                 [round(rng.uniform(13, 90), 3) for _ in range(10 if big else 2)]
             for off in offs:
                 yield 'offset', {'offset_angle': off, 'n': n, 'in_place': ip}
+            # rounding half-way cases: offsets exactly (k + 1/2) rows (quotient on a half: round-half-even vs
+            # half-up vs truncation differ), and a hair to either side
+            rows = 7 * n
+            den = (2 * rows + n) if ip else (2 * rows + 1)
+            for k in range(0, rows + 1):
+                edge = (k + 0.5) * 180.0 / den
+                if edge <= 90 and (big or n <= 2):
+                    yield 'offset', {'offset_angle': edge, 'n': n, 'in_place': ip}
+                    if big or rng.random() < 0.3:
+                        yield 'offset', {'offset_angle': edge + rng.choice([1e-9, -1e-9, 1e-12, -1e-12]), 'n': n,
+                                         'in_place': ip}
+    # input shapes: the flag as any truthy / falsy object, the count 1 as True, the angle as another number type
+    for n in (1, 2, 3):
+        for ip in (True, False):
+            for op in ('dome', 'sphere', 'offset'):
+                fl = _flag_shape(ip, rng.randrange(5))
+                c = {'n': n, 'in_place': ip, 'flag': fl}
+                if op == 'offset':
+                    c['offset_angle'] = rng.choice([12, 30, 45, 60, 90])
+                    c['angle_as'] = rng.choice(['int', 'float', 'fraction', 'decimal'])
+                yield op, c
+    yield 'offset', {'offset_angle': -12, 'n': 1, 'in_place': False}       # negative row count: slice from the end
+    yield 'offset', {'offset_angle': -30.0, 'n': 2, 'in_place': True}
+    yield 'dome', {'n': True, 'in_place': False}
+    yield 'sphere', {'n': True, 'in_place': True, 'flag': 1}
+    yield 'offset', {'offset_angle': True, 'n': 2, 'in_place': False, 'angle_as': 'bool'}     # True = 1 degree
+    yield 'offset', {'offset_angle': 30.5, 'n': True, 'in_place': False, 'angle_as': 'decimal'}
     for c in _proj_points(rng, 40000 if big else 4000):
         yield 'proj', c
     for _ in range(10000 if big else 1500):
         alt = rng.choice([0, 90, 45, rng.uniform(0, 90)])
         az = rng.choice([0, 90, 180, 270, rng.uniform(0, 360)])
-        r = rng.choice([100, 1, rng.uniform(0.01, 1e4)])
+        r = rng.choice([100, 1, rng.uniform(0.01, 1e4), rng.uniform(0.01, 1e4), rng.choice([1e-12, 1e-6, 1e9, 1e16])])
         ox, oy = rng.choice([(0.0, 0.0), (rng.uniform(-10, 10) * r, rng.uniform(-10, 10) * r)])
         yield 'sun2d', {'altitude': alt, 'azimuth': az, 'r': r, 'ox': ox, 'oy': oy}
 
@@ -1698,7 +1998,8 @@ def _polyline_cases(ctx, rng, count):
         ox, oy = rng.choice([(0.0, 0.0), (250.0, -40.0), (rng.uniform(-1e3, 1e3), rng.uniform(-1e3, 1e3))])
         yield {'lat': lat, 'lon': lon, 'tz': int(round(lon / 15.0)), 'month': rng.randrange(1, 13),
                'day': rng.randrange(1, 29), 'r': rng.choice([100, 1, rng.uniform(0.01, 1e4)]), 'ox': ox, 'oy': oy,
-               'divisions': rng.choice([10, 3, 24]), 'all_paths': rng.random() < 0.25}
+               'divisions': rng.choice([10, 3, 24]), 'all_paths': rng.random() < 0.5,
+               'north': rng.choice([0, 0, 30, -45, 135.5, rng.uniform(-180, 180)])}
 
 
 def _proj_mode_cases(rng, count):
@@ -1706,7 +2007,7 @@ def _proj_mode_cases(rng, count):
     for i in range(count):
         alt = rng.choice([0.0, math.pi / 2, rng.uniform(0, math.pi / 2)])
         az = rng.choice([0.0, math.pi / 2, math.pi, rng.uniform(0, TWO_PI)])
-        mode = ('defaults', 'radius_only', 'origin_kw', 'instance')[i % 4]
+        mode = ('defaults', 'radius_only', 'origin_kw', 'instance', 'vectors', 'duck')[i % 6]
         r = 100 if mode in ('defaults', 'origin_kw') else rng.choice([1, 1.0, 100.0, rng.uniform(0.01, 1e4)])
         o = [0.0, 0.0, 0.0] if mode in ('defaults', 'radius_only') else \
             [rng.choice([0.0, rng.uniform(-10, 10) * r]) for _ in range(3)]
@@ -1715,12 +2016,33 @@ def _proj_mode_cases(rng, count):
         yield 'proj', {'p': p, 'r': r, 'o': o, 'call': mode}
         salt = rng.choice([0, 90, 45, rng.uniform(0, 90)])
         saz = rng.choice([0, 90, 180, 270, rng.uniform(0, 360)])
-        if i % 2:
+        if i % 3 == 1:
             yield 'sun2d', {'altitude': salt, 'azimuth': saz, 'r': 100, 'ox': 0.0, 'oy': 0.0, 'call': 'defaults'}
+        elif i % 3 == 2:
+            rr = rng.choice([1, 100, rng.uniform(0.01, 1e4), 1e-9, 1e12])
+            yield 'sun2d', {'altitude': salt, 'azimuth': saz, 'r': rr, 'ox': rng.choice([0.0, rng.uniform(-10, 10) * rr]),
+                            'oy': rng.choice([0.0, rng.uniform(-10, 10) * rr]), 'call': 'shapes'}
         else:
             rr = rng.choice([1, 100, rng.uniform(0.01, 1e4)])
             yield 'sun2d', {'altitude': salt, 'azimuth': saz, 'r': rr, 'ox': rng.choice([0.0, rng.uniform(-10, 10) * rr]),
                             'oy': rng.choice([0.0, rng.uniform(-10, 10) * rr]), 'call': 'keywords'}
+
+
+def _container_cases(rng, count):
+    for i in range(count):
+        r = rng.choice([100, 1, rng.uniform(0.01, 1e4)])
+        lines = []
+        for _ in range(rng.choice([1, 1, 2, 3, 12])):
+            lines.append([[rng.uniform(0, math.pi / 2), rng.uniform(0, TWO_PI)] for _ in range(rng.randrange(3, 7))])
+        angles = rng.sample([0, 90, 180, 270, 22.5, 45, 337.5, 360, 12, 359.5, 400, -30], rng.randrange(1, 7))
+        if rng.random() < 0.3:
+            angles.sort(reverse=True)
+        yield 'containers', {'r': r, 'ox': rng.choice([0.0, rng.uniform(-10, 10) * r]),
+                             'oy': rng.choice([0.0, rng.uniform(-10, 10) * r]),
+                             'projection': rng.choice(['Orthographic', 'Stereographic', 'stereographic']),
+                             'container': CONTAINERS[i % len(CONTAINERS)], 'lines': lines, 'angles': angles,
+                             'north': rng.choice([0, 0, 30, -45, '30', ' -4.5e1']),
+                             'spacing': rng.choice([0.15, 0.15, '0.15', '1.5E-1', 1, True])}
 
 
 def _seq_cases(rng, count):
@@ -1749,6 +2071,119 @@ def _seq_cases(rng, count):
         yield 'sunseq', {'altitude': rng.choice([0, 90, 45, rng.uniform(0, 90)]),
                          'azimuth': rng.choice([0, 90, 180, 270, 360, rng.uniform(0, 360)]),
                          'north': rng.choice([0, 0, 0.0, 30, -45, rng.uniform(-180, 180)]), 'queries': qs}
+
+
+_LAZY_GROUP = {'tregenza_dome_vectors': 'td', 'tregenza_dome_mesh': 'td', 'tregenza_sphere_vectors': 'ts',
+               'tregenza_sphere_mesh': 'ts', 'reinhart_dome_vectors': 'rd', 'reinhart_dome_mesh': 'rd',
+               'reinhart_sphere_vectors': 'rs', 'reinhart_sphere_mesh': 'rs'}
+
+
+def _call_branches(fn, n, ip, off=None):
+    """Branches of the anchored viewsphere functions that a call takes (read off the code, see the header)."""
+    out = []
+    if fn in ('radial', 'radialw'):
+        az, alt = n, ip
+        if fn == 'radial':
+            out.append('dome_radial_patches:' + ('no_row_loop(alt<=1)' if alt <= 1 else 'rows'))
+            out.append('dome_radial_patches:' + ('az<3(flat faces)' if az < 3 else 'az>=3'))
+        else:
+            out.append('_dome_radial_patch_areas:' + ('no_rows(alt<1)' if alt < 1 else 'rows'))
+        return out
+    out.append('_patch_row_count_array:' + ('count==1(class tuple)' if n == 1 else 'count<1(empty list)' if n < 1
+                                            else 'count>1(list)'))
+    mode = 'in_place' if ip else 'default'
+    if fn in ('dome', 'sphere', 'offset'):
+        out.append('dome_patches:vertical_angle:' + mode)
+    if fn in ('weights', 'sweights', 'offsetw'):
+        out.append('_dome_patch_areas:vert_angle:' + mode)
+    if fn in ('offset', 'offsetw') and n >= 1 and isinstance(off, (int, float)) and off == off and abs(off) < 1e6:
+        rows = 7 * n
+        den = (2 * rows + n) if ip else (2 * rows + 1)
+        q = off * den / 180.0
+        k = int(round(q))
+        out.append('_patch_count_in_radial_offset:vert_angle:' + mode)
+        out.append('_patch_count_in_radial_offset:' + ('negative_rows(slice from the end)' if k < 0 else
+                                                         'zero_rows(empty band)' if k == 0 else
+                                                         'all_rows(slice past the end)' if k >= rows else 'some_rows'))
+        if abs(q - math.floor(q) - 0.5) < 1e-9:
+            out.append('_patch_count_in_radial_offset:quotient_on_a_half')
+    return out
+
+
+def _branches(op, inp):
+    """Names of the rarely taken branches an oracle case reaches (kind j), for the evidence counters."""
+    out = []
+    if op in ('dome', 'sphere'):
+        out += _call_branches(op, inp['n'], inp['in_place'])
+        out += _call_branches('weights' if op == 'dome' else 'sweights', inp['n'], inp['in_place'])
+    elif op == 'offset':
+        out += _call_branches('offset', inp['n'], inp['in_place'], inp['offset_angle'])
+        out += _call_branches('offsetw', inp['n'], inp['in_place'], inp['offset_angle'])
+    elif op == 'radial':
+        out += _call_branches('radial', inp['azimuth_count'], inp['altitude_count'])
+        out += _call_branches('radialw', inp['azimuth_count'], inp['altitude_count'])
+    elif op in ('lazy', 'hist', 'tables'):
+        filled = set()
+        ops = [{'k': 'read', 'p': p} for p in inp['order']] if op == 'lazy' else \
+            [{'k': 'read', 'p': 'reinhart_solid_angles' if b else 'tregenza_solid_angles'} for b in inp['order']] \
+            if op == 'tables' else inp['ops']
+        for o in ops:
+            if o['k'] == 'renew':
+                filled = set()
+                out.append('second_object_same_class')
+            elif o['k'] == 'read':
+                g = _LAZY_GROUP.get(o['p'], o['p'])
+                out.append('lazy_getter:' + ('slot_filled_by_itself' if o['p'] in filled else
+                                             'slot_filled_by_sibling_getter' if g in filled else 'slot_empty(build)'))
+                filled.update((o['p'], g))
+            elif o['k'] == 'call':
+                if o.get('bad'):
+                    out.append('refused_call:' + o['bad'])
+                else:
+                    a = o['a']
+                    if o['fn'] in ('offset', 'offsetw'):
+                        out += _call_branches(o['fn'], a[1], a[2], a[0])
+                    elif o['fn'] in ('radial', 'radialw'):
+                        out += _call_branches(o['fn'], a[0], a[1])
+                    else:
+                        out += _call_branches(o['fn'], a[0], a[1] if len(a) > 1 else False)
+    elif op == 'compass':
+        north = 0.0
+        for o in inp['ops']:
+            if o['k'] in ('setr', 'sets', 'setn'):
+                x = _cnum(o)
+                ok = x is not None and (x > 0 if o['k'] != 'setn' else abs(x) <= 360)
+                out.append('compass_setter:' + ('float()_refuses' if x is None else 'accepted' if ok
+                                                else 'assert_refuses'))
+                if ok and o['k'] == 'setn':
+                    north = x
+            elif o['k'] == 'setc':
+                out.append('compass_center:' + ('not_a_Point2D(refused)' if o.get('other') else 'Point2D'))
+            elif o['k'] in ('reads', 'reado'):
+                out.append('altitude_points:' + ('north_zero(no rotation)' if north == 0 else 'north_rotated'))
+    elif op == 'proj':
+        mode = inp.get('call', 'full')
+        out.append('point3d_to_stereographic:' + ('default_radius_and_origin' if mode == 'defaults' else
+                                                  'default_origin' if mode == 'radius_only' else
+                                                  'default_radius' if mode == 'origin_kw' else 'all_given'))
+    elif op == 'projseq':
+        if any(q[1] < 0 for q in inp['queries']):
+            out.append('point3d_to_stereographic:pole(zero division)')
+    elif op in ('sun2d', 'sunseq'):
+        names = [q[0] for q in inp['queries']] if op == 'sunseq' else ['Orthographic', 'Stereographic']
+        for nm in names:
+            t = nm.title()
+            out.append('position_2d:' + (t.lower() if t in ('Orthographic', 'Stereographic') else
+                                         'position_3d_only' if nm == '3d' else 'unsupported(raise)'))
+        out.append('_calculate_sun_vector:' + ('north_zero' if not inp.get('north') else 'north_rotated'))
+        if inp.get('call') == 'defaults':
+            out.append('position_2d:default_arguments')
+    elif op == 'polyline2d':
+        out += ['_project_polyline_to_2d:orthographic', '_project_polyline_to_2d:stereographic',
+                '_project_polyline_to_2d:unsupported(raise)']
+    elif op == 'containers':
+        out.append('_project_polyline_to_2d:' + inp['projection'].lower() + ':' + inp['container'])
+    return out
 
 
 def _order_slice(ctx, rng):
@@ -1826,7 +2261,14 @@ def _process_orders(ctx):
 
 def oracle(ctx):
     def counted(op, inp):
+        try:
+            for b in _branches(op, inp):
+                ctx.count('branch:' + b)
+        except Exception:          # the counters must never disturb the check
+            ctx.count('branch:uncounted')
         res = check_case(op, inp)
+        if op == 'polyline2d' and res is None:
+            ctx.count('branch:day_polyline2d:' + _POLY_SEEN.pop('arc', 'arc'))
         if op in ('dome', 'sphere', 'radial', 'offset'):
             ctx.subclaim('vectors_unit_upward_inside_own_patch',
                          not (res and res['sig'].get('what') == 'vector'))
@@ -1852,6 +2294,10 @@ LEVEL_TEXT = ('Machine-checked Lean 4 theorems over an executable model of views
               'history of reads, calls, refused calls and edited results every observation equals that of a fresh '
               'object, refused calls change nothing, reads are order independent; the Compass altitude circles are '
               'the projected altitude rings (refused radius assignment: known finding, counterexample theorem). '
+              'Branch theorems: the division_count == 1 shortcut of the row layout equals the general comprehension; the '
+              'horizontal band selects the patches of the first round(q) rows, none for 0, all quads and never the '
+              'zenith patch from the last row on and for every offset at most the quads; sibling theorems: sphere '
+              'weights are the dome weights twice, the lower band weights repeat the upper ones. '
               'Row tables and coefficients are regenerated from viewsphere.py on every run; the model is compared '
               'with the real code (mesh topology exactly, projections bit-exactly, weights to 1e-12).')
 LEVEL_NOTE = ('Trusted: Lean kernel; axioms propext/Classical.choice/Quot.sound only; the table extractor; the '
